@@ -385,3 +385,9 @@ def check_split(ctx, F, body, d, what):
     ctx.check(ok, root, 'nonce = in[..N], body = in[N..]',
               'the ciphertext is not split into nonce = first N bytes and body = the rest with one constant N (line %d): %s / %s'
               % (d.ln, rn and (rn[0], rn[2]), rb_ and (rb_[0], rb_[2])), 'split at N = %s' % (rn[2][0][1] if rn else '?'), d.where())
+
+
+@rule('C07', 'witness-private', tier='thorough')
+def witness_private(ctx):
+    from .. import witness
+    witness.check(ctx, ['EncapsulationRepresentationIsPrivate'])
